@@ -19,7 +19,7 @@ def key_construct(text):
     if text not in _kc_cache:
         from .model import alpha, KNOWN_NAMES
         import re
-        if re.fullmatch(r"[A-Za-z_]\w*", text.strip()):
+        if re.fullmatch(r"[\w\- :;,/>']+", text.strip()) and not re.search(r"\w \w+ = ", text):
             _kc_cache[text] = text.strip()          # a bare field / method name chosen by the rule, not a local
         else:
             try:
